@@ -8,7 +8,7 @@ import (
 
 func init() {
 	register("C18", []string{"./record"}, runC18)
-	propExplain["C18"] = "Decides structural clauses of C18 in record.Reader.nextChunk: a chunk is handed out (return nil) only after its CRC matched — and, for the recyclable / WAL-sync wire formats, after its log number matched — for the chunk at the reader's current position; every return of an invalid-chunk sentinel is preceded by recording the invalid offset for the current position (without it read-ahead can never confirm corruption); plus agreement of the chunk-encoding table with the header-format table. Shares the LogWriter rules of C20 (a failed block write is never overwritten by a later successful one). Does not decide byte-identical round trips for all sizes (value-level)."
+	propExplain["C18"] = "Decides structural clauses of C18 in record.Reader.nextChunk: a chunk is handed out (return nil) only after its CRC matched — and, for the recyclable / WAL-sync wire formats, after its log number matched — for the chunk at the reader's current position; every return of an invalid-chunk sentinel is preceded by recording the invalid offset for the current position (without it read-ahead can never confirm corruption); plus agreement of the chunk-encoding table with the header-format table. Shares the LogWriter rules of C20 (a failed block write is never overwritten by a later successful one). (G4) once nextChunk has stepped onto a chunk it moves on to the next one only after that chunk's checksum matched (a chunk is never skipped on the strength of its unverified type byte). Does not decide byte-identical round trips for all sizes (value-level)."
 }
 
 func sentinelPred(names ...string) func(ssa.Value) bool {
@@ -142,6 +142,55 @@ func runC18Core(c *Ctx) {
 			"a tolerated-tail sentinel is not returned for an unclassified read error", []string{"read-error-classified"})
 		if n3 < 5 || CondCount(fn, NilErrGuard(CallPred("ReadFull", "io"))) == 0 {
 			c.Unresolved("C18.G3", "sentinel returns / the nil test of io.ReadFull's error not found in nextChunk")
+		}
+	}
+	// C18.G4: once nextChunk has stepped onto a chunk (r.begin set to its payload), the chunk is
+	// passed over — the loop continues with the next one — only after its checksum matched. A
+	// chunk that is skipped because of its (unverified) type byte lets a damaged first/full chunk
+	// of a synced record vanish from the log without ErrInvalidChunk, so read-ahead never runs.
+	{
+		fl4 := NewFlow(c.P).
+			After("on-chunk", And(StoreTo(beginF), Pred("payload start (not the reset to 0 on a block refill)", func(in ssa.Instruction) bool {
+				_, isConst := in.(*ssa.Store).Val.(*ssa.Const)
+				return !isConst
+			}))).
+			Edge("crc-ok", crcEqGuard()).
+			IterationLocal("on-chunk", "crc-ok")
+		fl4.MaxDepth = 0
+		res4 := fl4.Analyze(fn, emptyState())
+		c.noteFlow(fl4)
+		nBack := 0
+		for _, b := range fn.Blocks {
+			for _, p := range b.Preds {
+				if !b.Dominates(p) {
+					continue // not a back edge
+				}
+				// state at the end of p, before the iteration-local facts are dropped
+				es := res4.out[p]
+				if es.top {
+					continue
+				}
+				nBack++
+				if !es.has("on-chunk") {
+					c.Ob("C18.G4", fn, "a loop iteration that did not step onto a chunk (padding / block refill)", c.P.Pos(fn.Pos()), true, "")
+					continue
+				}
+				ok := es.has("crc-ok")
+				pos := fn.Pos()
+				if len(p.Instrs) > 0 {
+					for i := len(p.Instrs) - 1; i >= 0; i-- {
+						if p.Instrs[i].Pos().IsValid() {
+							pos = p.Instrs[i].Pos()
+							break
+						}
+					}
+				}
+				c.Ob("C18.G4", fn, "a chunk is passed over only after its checksum matched", c.P.Pos(pos), ok,
+					map[bool]string{true: "", false: "the loop moves on to the next chunk although this chunk's checksum was not compared: a chunk whose type byte is damaged is skipped silently instead of being reported as ErrInvalidChunk"}[ok])
+			}
+		}
+		if nBack < 3 {
+			c.Unresolved("C18.G4", "fewer than 3 loop back edges found in nextChunk")
 		}
 	}
 	// C18.G1: success return only after validation
